@@ -319,6 +319,9 @@ func (x *Exec) runBody(recv *ast.FieldList, ftype *ast.FuncType, body *ast.Block
 				rets = append(rets, o.env[ro])
 			}
 		}
+		if len(c.Results) == 0 && (strings.HasPrefix(c.LitSel, "case:") || strings.HasPrefix(c.LitSel, "if:") || strings.HasPrefix(c.LitSel, "for:")) {
+			rets = nil // a block unit that leaves through a return of the enclosing function: its values are not named
+		}
 		if len(rets) != len(c.Results) {
 			engineFail("function %s returns %d values on some path, contract names %d", c.Key, len(rets), len(c.Results))
 		}
@@ -346,7 +349,9 @@ func (x *Exec) runBody(recv *ast.FieldList, ftype *ast.FuncType, body *ast.Block
 					continue
 				}
 			}
+			x.localTags = localTagsOf(en.Prop)
 			phi := x.evalBool(en.Expr, o)
+			x.localTags = nil
 			x.contract = false
 			ob := x.oblige(o, "post", lab, phi, en.Src)
 			if en.Prop != "" && !strings.HasPrefix(en.Prop, "local:") {
@@ -380,7 +385,9 @@ func (x *Exec) runBody(recv *ast.FieldList, ftype *ast.FuncType, body *ast.Block
 					continue
 				}
 			}
+			x.localTags = localTagsOf(cn.Prop)
 			phi := x.evalBool(cn.Expr, o)
+			x.localTags = nil
 			x.contract = false
 			ob := x.oblige(o, "canary", lab, phi, cn.Src)
 			ob.MustFail = true
@@ -629,7 +636,9 @@ func (x *Exec) verifyInlineLit(lit *ast.FuncLit, st *State, params, results []st
 				}
 			}
 			x.contract = true
+			x.localTags = localTagsOf(en.Prop)
 			phi := x.evalBool(en.Expr, o)
+			x.localTags = nil
 			x.contract = false
 			okind := "post"
 			if strings.HasPrefix(lab, "canary:") {
@@ -697,4 +706,19 @@ func (x *Exec) checkFrame(c *Contract, o *State) {
 		}
 		x.oblige(o, "frame", "modifies:"+k, phi, "modifies "+strings.Join(c.Modifies, ", "))
 	}
+}
+
+// localTagsOf: the names a clause's tag list declares as locals of the unit ([local:a;path:...;local:b]).
+func localTagsOf(prop string) map[string]bool {
+	var m map[string]bool
+	for _, t := range strings.Split(prop, ";") {
+		t = strings.TrimSpace(t)
+		if strings.HasPrefix(t, "local:") {
+			if m == nil {
+				m = map[string]bool{}
+			}
+			m[strings.TrimPrefix(t, "local:")] = true
+		}
+	}
+	return m
 }
